@@ -233,6 +233,8 @@ pub struct HandshakeOracle {
     /// per (server, address): full-size, CRC-valid connection requests delivered with the right /
     /// a foreign protocol version
     syn_versions: BTreeMap<(usize, SocketAddr), (u64, u64)>,
+    /// addresses with an established connection in each server's latest probe
+    last_active: BTreeMap<usize, BTreeSet<SocketAddr>>,
     /// per client: (last client step, last server step, largest gap between consecutive steps of
     /// either) during the first 15 s of its current incarnation
     stepping: BTreeMap<usize, (u64, u64, u64)>,
@@ -259,6 +261,7 @@ impl HandshakeOracle {
             refused_checked: 0,
             created_at: BTreeMap::new(),
             syn_versions: BTreeMap::new(),
+            last_active: BTreeMap::new(),
             stepping: BTreeMap::new(),
         }
     }
@@ -421,6 +424,7 @@ impl Oracle for HandshakeOracle {
                 _ => (),
             },
             Rec::Probe { call, ep, probe: Probe::Server(s), .. } => {
+                self.last_active.insert(*ep, s.clients.iter().filter(|c| c.state == 1).map(|c| c.address).collect());
                 // attribute freshly created server-side half connections to their clients
                 if !self.pending_server_hcs.is_empty() {
                     let mut to_check = Vec::new();
@@ -465,6 +469,14 @@ impl Oracle for HandshakeOracle {
                             continue;
                         }
                         let s_ok = self.connects_server.get(&(*server, cx.addrs[ep])).cloned().unwrap_or(0) >= 1;
+                        // ... and stays connected: nothing in this family ends a connection
+                        if c_ok && s_ok && self.errors_client.get(&ep).is_none() {
+                            if let Some(active) = self.last_active.get(server) {
+                                if !active.contains(&cx.addrs[ep]) {
+                                    return viol(prop, "established_connection_vanished", format!("client {} and the server both reported Connect, nothing ended the connection, but at the end of the run the server no longer holds an established connection for {}", ep, cx.addrs[ep]), 0);
+                                }
+                            }
+                        }
                         if !c_ok || !s_ok {
                             return viol(prop, "handshake_incomplete", format!("client {}: Connect reported by the client: {}, by the server: {} although every handshake frame could be retried on a link that lost only the first few datagrams of each direction (at most the first ten SYN-ACKs) (client error: {:?})", ep, c_ok, s_ok, self.errors_client.get(&ep).map(|k| err_name(*k))), 0);
                         }
